@@ -129,6 +129,7 @@ pub fn contains(hay: &[u8], needle: &[u8]) -> bool {
 
 /// Runs the binary once. Errors are harness errors (cannot spawn etc.).
 pub fn run(spec: &ProcSpec, scratch: &Scratch, tag: &str) -> Result<ProcResult, String> {
+    crate::driver::heartbeat();
     let bin = rrss_bin();
     let out_path = scratch.path.join(format!("{}.out", tag));
     let err_path = scratch.path.join(format!("{}.err", tag));
